@@ -68,6 +68,20 @@ def holder_prefix(ctx, path):
     return None
 
 
+def siblings(a, b):
+    """two paths that are different fields of one and the same struct value: (adt, field index in a, field index in b) or None"""
+    if a is None or b is None or a.root != b.root:
+        return None
+    ea, eb = a.strip_refs().elems, b.strip_refs().elems
+    n = 0
+    while n < len(ea) and n < len(eb) and ea[n] == eb[n]:
+        n += 1
+    if n < len(ea) and n < len(eb) and ea[n][0] == "field" and eb[n][0] == "field" and ea[n][1] == eb[n][1] and ea[n][1] is not None \
+            and not str(ea[n][1]).startswith(("tuple", "closure:")):
+        return (ea[n][1], ea[n][2], eb[n][2])
+    return None
+
+
 def rule_h_agree(ctx):
     R = RuleResult("H-agree", "every hash value and re-hashing closure handed to a split-table operation is derived from the hash builder of the same map "
                    "as the table (handles: their table and hash-builder fields are taken from one map; clone/clone_from: the builder that re-hashes the "
@@ -107,13 +121,13 @@ def rule_h_agree(ctx):
                     # a hash passed on from a handle field / parameter
                     if aty is not None and aty["s"] == "u64":
                         p = b.op_path(a)
-                        if p is not None and p.fields() and p.root == 1:
-                            # field of self handle: obligation at construction
+                        sib = siblings(recv, p)
+                        if p is not None and p.fields() and 1 <= p.root <= b.arg_count and sib is not None:
+                            # field of a handle next to the table: obligation at construction
                             f = p.fields()[-1]
-                            if recv.root == 1 and recv.fields():
-                                handle_pairs.setdefault(f[1], set()).add((recv.fields()[0][2], f[2], "hash"))
-                                n += 1
-                                R.inst(fn=b.path, site=c.where(), arg="hash", source="handle field %s" % f[3], verdict="checked at construction")
+                            handle_pairs.setdefault(sib[0], set()).add((sib[1], sib[2], "hash"))
+                            n += 1
+                            R.inst(fn=b.path, site=c.where(), arg="hash", source="handle field %s" % f[3], verdict="checked at construction")
                         elif p is not None and 1 <= p.root <= b.arg_count and not p.fields():
                             R.inst(fn=b.path, site=c.where(), arg="hash", source="parameter (caller-supplied by API contract)", verdict="exempt")
                     continue
@@ -128,10 +142,10 @@ def rule_h_agree(ctx):
                         R.viol(key, c.where(), "%s is given a %s built from %s while the table is %s: lookups/re-hashing would use another map's hasher"
                                % (lc.path, "hash" if aty and aty["s"] == "u64" else "hasher", bp, recv))
                     continue
-                if bp is not None and bp.root == 1 and recv.root == 1 and bp.fields() and recv.fields() and bkey is None and rkey is None:
+                sib = siblings(recv, bp)
+                if bp is not None and 1 <= bp.root <= b.arg_count and sib is not None and bkey is None and rkey is None:
                     # two fields of a handle (table: &mut RawTable, hash_builder: &S)
-                    owner = bp.fields()[0][1]
-                    handle_pairs.setdefault(owner, set()).add((recv.fields()[0][2], bp.fields()[0][2], "builder"))
+                    handle_pairs.setdefault(sib[0], set()).add((sib[1], sib[2], "builder"))
                     R.inst(fn=b.path, site=c.where(), callee=lc.name, builder=str(bp), table=str(recv), verdict="checked at construction")
                     continue
                 # builder is a local value (clone of a builder): must end up stored with the table
@@ -258,10 +272,10 @@ def _check_handle(ctx, R, hf, handle_pairs, adt, pairs):
                             ok = ok_ is not None and ok_ == holder_prefix(ctx, tp)
                             if not ok:
                                 # copied together from another handle of a sibling kind: both are fields of the same source value
-                                if op_.fields() and tp.fields() and op_.root == tp.root and op_.fields()[0][1] == tp.fields()[0][1]:
-                                    src_adt = op_.fields()[0][1]
-                                    handle_pairs_ok = any(src_adt == a2 for a2 in handle_pairs) or src_adt in ctx.roles.handles
-                                    ok = handle_pairs_ok or True
+                                sib = siblings(tp, op_)
+                                if sib is not None:
+                                    handle_pairs.setdefault(sib[0], set()).add((sib[1], sib[2], "builder"))
+                                    ok = True
                         R.inst(fn=b.path, site=b.where(loc), handle=adt, verdict="ok" if ok else "VIOLATION")
                         if not ok:
                             R.viol(key, b.where(loc), "%s is built with a table and a hash builder that do not come from the same map" % adt)
@@ -280,13 +294,12 @@ def _check_handle(ctx, R, hf, handle_pairs, adt, pairs):
                             q = b.op_path(oop)
                             if q is not None and 1 <= q.root <= b.arg_count and not q.fields():
                                 ok = True   # caller-supplied hash (raw-entry API contract)
-                            elif q is not None and tp is not None and q.root == tp.root and q.fields() and tp.fields() \
-                                    and q.fields()[0][1] == tp.fields()[0][1] and len(q.fields()) == 1:
+                            elif siblings(tp, q) is not None:
                                 # copied together with the table from another handle: the obligation moves to that handle's constructions
-                                src_adt = q.fields()[0][1]
-                                handle_pairs.setdefault(src_adt, set()).add((tp.fields()[0][2], q.fields()[0][2], "hash"))
+                                sib = siblings(tp, q)
+                                handle_pairs.setdefault(sib[0], set()).add((sib[1], sib[2], "hash"))
                                 ok = True
-                                why = "copied with the table from %s" % src_adt
+                                why = "copied with the table from %s" % sib[0]
                         R.inst(fn=b.path, site=b.where(loc), handle=adt, verdict="ok" if ok else "VIOLATION")
                         if not ok:
                             R.viol(key + ":hash", b.where(loc), "%s stores a hash that was not computed with the hash builder of the map it stores (%s)" % (adt, why))
